@@ -194,7 +194,8 @@ def run(ctx):
         vs = max(float(np.max(np.abs(c["v"]))), float(np.max(np.abs(r["v"]))), 1e-300)
         # exact tie of the two roots (v.u = 0): either sign conserves energy; accept the mirrored root
         tie_roots = abs(m["b"]) <= 1e-14 * math.sqrt(abs(m["a"] * m["c"]) + 1e-300)
-        if r["state"] != m["state"] or not (allclose(r["v"], m["v"], vs) or tie_roots):
+        near_double = m["accepted"] and abs(m["sbig"] - m["s"]) <= 1e-3 * abs(m["s"])     # ill-conditioned root (see C04)
+        if r["state"] != m["state"] or not (allclose(r["v"], m["v"], vs, rtol=1e-6 if near_double else 1e-9) or tie_roots):
             ctx.corr_mismatch("hop.velocity", c, "model v %r impl v %r on %s" % (m["v"], r["v"], cls))
         # contract of the root finder the model replaces: residual of the quadratic at the model's root
         if m["accepted"]:
